@@ -670,7 +670,7 @@ func c15Tables(c *Ctx, r *Report, rule string) {
 		for _, cs := range tb.cases {
 			key := cs.name + ": " + strings.ReplaceAll(cs.src, "\n", " \\n ")
 			base := msgScenario(c, msgMatcher{fn: tb.fn}, msgCase{})
-			sc := &Scenario{Name: key, MaxVisit: 60, MaxPaths: 500, ConcreteCopy: true,
+			sc := &Scenario{Name: key, MaxVisit: 60, MaxPaths: 500, ConcreteCopy: true, MaxDepth: 24,
 				Params: map[string]SV{"recv": symRef("m", false), "p0": symRef("disp#0", false)},
 				Heap:   map[string]SV{},
 			}
@@ -685,6 +685,9 @@ func c15Tables(c *Ctx, r *Report, rule string) {
 				}
 				// the module's Caddyfile helpers, wherever they live (they take the dispenser)
 				if f.Pkg != nil && strings.HasPrefix(f.Pkg.Pkg.Path(), modPath) && f.Parent() == nil {
+					if f.Signature.Recv() == nil {
+						return true // plain functions of the module (parsing helpers, also those that only see tokens)
+					}
 					for _, pr := range f.Params {
 						if strings.HasSuffix(typeStr(pr.Type()), "caddyfile.Dispenser") {
 							return true
